@@ -83,8 +83,8 @@ Proof.
   destruct (changes_loop (d_latest d) false 0 (d_entries d) 0 0 false) as [[out ls] f]. cbn [fst] in *. now rewrite H.
 Qed.
 
-Lemma compact_store_plain v st ds thr order :
-  compact_store v st ds thr 0 None order
+Lemma compact_store_plain v st ds thr aft order :
+  compact_store v st ds thr 0 aft None order
   = {| cr_store := set_ds st ds (compact_ds (v_cf v) (v_fl v) thr order (get_ds st ds));
        cr_flushes := Z.of_nat (length (plan (v_cf v) (v_fl v) thr (get_ds st ds) order));
        cr_crashed := false; cr_raced := false; cr_racenew := 0;
@@ -96,11 +96,11 @@ Qed.
 (** C12_agree_implies_spec (feed clause): in any model state whose dataset satisfies the invariant, if the repaired
     model predicts the reads before and after a complete, un-raced compaction, then the observed feed after is the
     observed feed before minus the versions identical to their immediate predecessor. *)
-Theorem agree_compact_feed st ds thr order o_fl o_rn before after :
+Theorem agree_compact_feed st ds thr aft order o_fl o_rn before after :
   let d := get_ds st ds in
   cinv d -> Forall (fun e => 0 <= en_seq e) (d_entries d) -> NoDup order ->
   (forall id, assoc id (d_latest d) <> None -> In id order) ->
-  snd (fst (agree_op v_fixed false st (CCompact ds thr 0 None order o_fl false false o_rn before after))) = true ->
+  snd (fst (agree_op v_fixed false st (CCompact ds thr 0 aft None order o_fl false false o_rn before after))) = true ->
   oents_eqb (ro_full after) (spec_compact (ro_full before)) = true.
 Proof.
   intros d Hd Hseq Hnd Hcov Hag.
@@ -155,12 +155,12 @@ Qed.
 
 Definition crashing_of (n crash : Z) : bool := (0 <? crash) && (crash <=? n).
 
-Lemma compact_store_norace v st ds thr crash order :
+Lemma compact_store_norace v st ds thr crash (aft : bool) order :
   let d := get_ds st ds in
   let p := plan (v_cf v) (v_fl v) thr d order in
   let crashing := crashing_of (Z.of_nat (length p)) crash in
-  let upto := if crashing then Z.to_nat (crash - 1) else length p in
-  compact_store v st ds thr crash None order
+  let upto := if crashing then (if aft then Z.to_nat crash else Z.to_nat (crash - 1)) else length p in
+  compact_store v st ds thr crash aft None order
   = {| cr_store := set_ds st ds (compact_crash (v_cf v) (v_fl v) thr order upto d);
        cr_flushes := if crashing then crash else Z.of_nat (length p);
        cr_crashed := crashing; cr_raced := false; cr_racenew := 0;
@@ -222,13 +222,13 @@ Qed.
     executable spec holds on those observations: no failing read, same latest-only feed (as a set), same listing,
     same answers to all lookups (current and point in time), same relations, and the full feed after is the feed
     before minus the versions identical to their immediate predecessor (killed: both de-duplicate to the same feed). *)
-Theorem agree_compact_spec st ds thr crash order o_fl o_cr o_rn before after :
+Theorem agree_compact_spec st ds thr crash (aft : bool) order o_fl o_cr o_rn before after :
   let d := get_ds st ds in
   cinv d -> seqs_nonneg d -> keys_sorted st -> NoDup order ->
   (forall id, assoc id (d_latest d) <> None -> In id order) ->
   map gkey (ro_gets after) = map gkey (ro_gets before) ->
-  snd (fst (agree_op v_fixed false st (CCompact ds thr crash None order o_fl o_cr false o_rn before after))) = true ->
-  spec_op_ok (CCompact ds thr crash None order o_fl o_cr false o_rn before after) = true.
+  snd (fst (agree_op v_fixed false st (CCompact ds thr crash aft None order o_fl o_cr false o_rn before after))) = true ->
+  spec_op_ok (CCompact ds thr crash aft None order o_fl o_cr false o_rn before after) = true.
 Proof.
   intros d Hd Hseq Hks Hnd Hcov Hkeys Hag. subst d.
   cbn [agree_op snd fst] in Hag. rewrite compact_store_norace in Hag.
@@ -238,7 +238,7 @@ Proof.
   change (v_cf v_fixed) with cf_fixed in Hag. set (fl := v_fl v_fixed) in *.
   set (p := plan cf_fixed fl thr d order) in *.
   set (crashing := crashing_of (Z.of_nat (length p)) crash) in *.
-  set (upto := if crashing then Z.to_nat (crash - 1) else length p) in *.
+  set (upto := if crashing then (if aft then Z.to_nat crash else Z.to_nat (crash - 1)) else length p) in *.
   pose proof (plan_prefix_noshared fl thr d order upto) as Hns. fold p in Hns. rewrite Hns in Hag. clear Hns.
   set (d' := compact_crash cf_fixed fl thr order upto d) in *.
   rewrite get_set_same in Hag.
